@@ -93,8 +93,32 @@ def rand_key(rng, U):
     return rng.randrange(U)
 
 
+def live_keys(h):
+    """keys present after the history so far (generator-side incremental replay of the mutating
+    lines; only a guess used to aim operations at present keys, never an oracle)"""
+    live = h.__dict__.setdefault("_live", set())
+    pos = h.__dict__.get("_live_pos", 1)
+    for l in h.lines[pos:]:
+        t = l.split()
+        if t[0] in ("I", "TI"):
+            live.add(int(t[1]))
+        elif t[0] in ("R", "TR", "RI"):
+            live.discard(int(t[1]))
+        elif t[0] == "BI":
+            for it in t[1:]:
+                live.add(int(it.split(":")[0]))
+        elif t[0] == "X":
+            live.clear()
+    h._live_pos = len(h.lines)
+    return sorted(live)
+
+
 def emit_extra(h, rng, U, kind):
     z = rand_key(rng, U)
+    if rng.random() < 0.4:
+        lk = live_keys(h)
+        if lk:
+            z = rng.choice(lk)
     if kind == "get":
         h.add(rng.choice([f"G {z}", f"C {z}", f"D {z} {h.sid * 10 + 7}", "L", "E"]))
     elif kind == "getmut":
@@ -133,7 +157,19 @@ def emit_extra(h, rng, U, kind):
             h.add(f"GI {z}")
         elif r < 0.45:
             n = rng.choice([0, 1, 2, 3, 5])
-            h.add("GM " + " ".join(str(rand_key(rng, U)) for _ in range(n)))
+            lk = live_keys(h)
+            q = rng.random()
+            if lk and q < 0.6:
+                # all requested keys present: distinct, or with repeats and possibly longer than the map
+                if q < 0.3:
+                    ks = rng.sample(lk, min(len(lk), n))
+                else:
+                    ks = [rng.choice(lk) for _ in range(rng.choice([2, 3, len(lk) + 1, 2 * len(lk) + 1]))][:40]
+                if q > 0.5:
+                    ks.insert(rng.randrange(len(ks) + 1), rand_key(rng, U))     # plus one arbitrary key
+                h.add("GM " + " ".join(str(k) for k in ks))
+            else:
+                h.add("GM " + " ".join(str(rand_key(rng, U)) for _ in range(n)))
         elif r < 0.6:
             h.add(f"RI {z}")
         elif r < 0.78:
@@ -244,8 +280,8 @@ def build_valid(h, rng, cap):
 
 
 DAMAGE_KINDS = ["unsorted_leaf", "unsorted_branch", "dup_leaf", "dup_branch", "count_vpop", "count_kpop",
-                "count_pushk", "count_pushv", "overfill", "underfill_leaf", "underfill_branch", "keyout_lo", "keyout_hi",
-                "child_pop", "child_dup", "badref_child", "badref_root", "chain_trunc", "chain_skip",
+                "count_pushk", "count_pushv", "overfill", "overfill_branch", "underfill_leaf", "underfill_branch", "keyout_lo", "keyout_hi",
+                "child_pop", "child_dup", "branch_nochild", "badref_child", "badref_root", "chain_trunc", "chain_skip",
                 "chain_misorder", "chain_unalloc", "orphan_leaf", "orphan_branch", "none"]
 
 
@@ -282,6 +318,12 @@ def damage_lines(kind, rng, cap, h, p=None, bp=None, ki=None):
             out.append(f"DMG LPUSH {p} {BIG + i} {h.sid} {h.sid * 10}")
             h.sid += 1
         return out
+    if kind == "overfill_branch":
+        out = []
+        for i in range(cap + 1):
+            out.append(f"DMG BPUSH {bp} {BIG + i} {h.sid}")
+            h.sid += 1
+        return out
     if kind == "underfill_leaf":
         return [f"DMG LTRUNC {p} {rng.choice([0, 1, max(0, cap // 2 - 1)])}"]
     if kind == "underfill_branch":
@@ -290,6 +332,8 @@ def damage_lines(kind, rng, cap, h, p=None, bp=None, ki=None):
         return [f"DMG LK {max(1, p)} 0 {-BIG}"]
     if kind == "keyout_hi":
         return [f"DMG LLK {p} {BIG}"]
+    if kind == "branch_nochild":
+        return [f"DMG BTRUNC {bp} 0", f"DMG BCPOP {bp}"]
     if kind == "child_pop":
         return [f"DMG BCPOP {bp}"]
     if kind == "child_dup":
@@ -315,7 +359,7 @@ def damage_lines(kind, rng, cap, h, p=None, bp=None, ki=None):
 
 LEAF_KINDS = ["unsorted_leaf", "dup_leaf", "count_vpop", "count_kpop", "count_pushk", "count_pushv", "overfill",
               "underfill_leaf", "keyout_lo", "keyout_hi", "chain_trunc", "chain_skip", "chain_misorder", "chain_unalloc"]
-BRANCH_KINDS = ["unsorted_branch", "dup_branch", "underfill_branch", "child_pop", "child_dup", "badref_child"]
+BRANCH_KINDS = ["unsorted_branch", "dup_branch", "underfill_branch", "overfill_branch", "branch_nochild", "child_pop", "child_dup", "badref_child"]
 
 
 def gen_c14_sweep(seed, shard, nshards):
